@@ -336,9 +336,54 @@ def ideq_rule(chk, P, rid, floor, only=None):
                 if c.callee in ("strncmp", "memcmp") and _length_is_full(f, c):
                     n_cmp += 1          # bounded by strlen(operand) + 1: compares the terminator too, i.e. exact
                     continue
+                if c.callee == "memcmp" and not any(_is_string_operand(P, f, a) for a in c.args[:2]):
+                    continue            # a block compare of binary data (node addresses, unique ids), not a name match
                 chk.violation(rid, f.name, c.callee, c.loc(), "%s is used to match strings: a name that merely starts with / contains a configured id would be accepted as that id" % c.callee)
     chk.ok(rid, n_cmp, {"exact_comparisons": n_cmp})
     chk.floor("string_comparisons", n_cmp, floor)
+
+
+def _is_string_operand(P, f, o, depth=0):
+    """the operand is text: a string literal, the buffer of a GString, a strdup/strlen-ed value, or a `char *` parameter / local (debug-info type)"""
+    o = rules.strip_casts(f, o)
+    if o.get("k") == "global":
+        return "str" in o
+    if o.get("k") == "arg":
+        from ..nullparam import is_char_ptr
+        return is_char_ptr(P, f, o["i"])
+    if o.get("k") != "inst" or depth > 5:
+        return False
+    i = f.insts[o["id"]]
+    if i.op == "load":
+        if i["ptr"].get("k") == "inst":
+            fp = rules.field_path_of_ptr(P, f, i["ptr"])
+            if fp == "_GString.str":
+                return True
+            a = f.insts[i["ptr"]["id"]]
+            if a.op == "alloca":
+                t = P.di_strip(a.get("ditype", -1))
+                if t and t["kind"] == "pointer":
+                    b = P.di_strip(t["base"], typedefs=False)
+                    if b and b.get("kind") == "base" and b.get("name") == "char":
+                        return True
+                o2 = rules.resolve_local(f, o)
+                if o2 != o:
+                    return _is_string_operand(P, f, o2, depth + 1)
+            elif fp:
+                # a `char *` member of a record
+                sid = P.di_struct_by_name(fp.split(".")[0])
+                for (n_, off_, sz_, mt_) in (P.di_members(sid) or []) if sid is not None else []:
+                    if n_ == fp.split(".", 1)[1]:
+                        t = P.di_strip(mt_)
+                        if t and t["kind"] == "pointer":
+                            b = P.di_strip(t["base"], typedefs=False)
+                            return bool(b) and b.get("kind") == "base" and b.get("name") == "char"
+        return False
+    if i.op == "call":
+        return i.callee in ("strdup", "g_strdup", "strndup")
+    if i.op == "getelementptr":
+        return _is_string_operand(P, f, i["base"], depth + 1)
+    return False
 
 
 def _length_is_full(f, c):
